@@ -76,10 +76,9 @@ func (ti *TypeInfo) sortOf(t types.Type) string {
 		return s
 	}
 	t = types.Unalias(t)
-	if tp, ok := t.(*types.TypeParam); ok {
-		n := "TP_" + sanitize(tp.Obj().Name())
-		ti.c.DeclareSort(n)
-		return n
+	if _, ok := t.(*types.TypeParam); ok {
+		// a value of type-parameter type is opaque: modelled like a value boxed in `any`
+		return SIface
 	}
 	switch u := t.Underlying().(type) {
 	case *types.Basic:
@@ -123,7 +122,7 @@ func (ti *TypeInfo) sortOf(t types.Type) string {
 }
 
 func (ti *TypeInfo) structSort(t types.Type, u *types.Struct) string {
-	key := types.TypeString(t, nil)
+	key := types.TypeString(substTypeParams(t), nil)
 	if n, ok := ti.structs[key]; ok {
 		return n
 	}
